@@ -14,19 +14,26 @@ effect yet — owns the lock record's renewal chain. -/
 theorem holder_owns_record (c : Cfg) (faults : Bool) (s : St) (h : Reach c false faults s) (g : G)
     (hg : s.holds g = true ∨ s.pc g = .uCancel ∨ s.pc g = .uDelete) :
     ∃ r, s.lrec = some r ∧ r.owner = some g :=
-  sorry
+  (Reach_Inv c faults s h).own g hg
 
 /-- C01.mutex: two callers never hold the lock at the same time — any N, any sharing of Lockers and
 providers, any interleaving at storage-call granularity, cancellation anywhere, unboundedly many
 request-lost / reply-lost faults. -/
 theorem mutex (c : Cfg) (faults : Bool) (s : St) (h : Reach c false faults s) (g₁ g₂ : G)
     (h₁ : s.holds g₁ = true) (h₂ : s.holds g₂ = true) : g₁ = g₂ :=
-  sorry
+  by
+  have hi := (Reach_Inv c faults s h).own
+  obtain ⟨r₁, hr₁, ho₁⟩ := hi g₁ (Or.inl h₁)
+  obtain ⟨r₂, hr₂, ho₂⟩ := hi g₂ (Or.inl h₂)
+  rw [hr₁] at hr₂
+  cases hr₂
+  rw [ho₁] at ho₂
+  exact Option.some.inj ho₂
 
 /-- one-slot token + 0/1 counter serialise the goroutines that share a Locker -/
 theorem locker_serialised (c : Cfg) (faults : Bool) (s : St) (h : Reach c false faults s) (g₁ g₂ : G)
     (hl : c.lk g₁ = c.lk g₂) (h₁ : InSection s g₁) (h₂ : InSection s g₂) : g₁ = g₂ :=
-  sorry
+  (Reach_Inv c faults s h).ser g₁ g₂ hl ((inSection_iff s g₁).1 h₁) ((inSection_iff s g₂).1 h₂)
 
 /-- the counter is 1 exactly while some goroutine of the Locker is between taking the token and
 Unlock's CAS — so a well-bracketed Unlock never hits the panic branch and Lock never sees a non-zero
@@ -34,13 +41,17 @@ counter after taking the token -/
 theorem counter_exact (c : Cfg) (faults : Bool) (s : St) (h : Reach c false faults s) (g : G) :
     (s.holds g = true → s.cntr (c.lk g) = 1 ∧ s.token (c.lk g) = false) ∧
     ((s.pc g = .lSelect ∨ s.pc g = .tSelect) → s.token (c.lk g) = true → s.cntr (c.lk g) = 0) :=
-  sorry
+  by
+  have hi := Reach_Inv c faults s h
+  exact ⟨fun hh => ⟨hi.cnt1 g (Or.inl hh), hi.secTok g (Or.inl hh)⟩, fun _ ht => hi.tokCnt _ ht⟩
 
 /-- a renewal can only ever touch a record of the chain it was armed for: versions are never reused -/
 theorem versions_fresh (c : Cfg) (faults : Bool) (s : St) (h : Reach c false faults s) :
     (∀ r, s.lrec = some r → r.ver < s.nextVer) ∧ (∀ t ∈ s.armed, t.ver < s.nextVer) ∧
     (∀ u ∈ s.sups, u.ver < s.nextVer) :=
-  sorry
+  by
+  have hi := (Reach_Inv c faults s h).ver
+  exact ⟨hi.1, hi.2.1, fun u hu => (hi.2.2 u hu).1⟩
 
 /-- C01.mutex_needs_timely_unlock (negative; this is known finding KF-1): if the record may lapse as
 soon as its owner is no longer *holding* — i.e. while the owner's Unlock has not yet issued its
@@ -48,12 +59,16 @@ Delete — two callers can hold at once:
 A.Lock ok · A.Unlock{cancel} · lease lapses · B.Lock ok · A's Delete removes B's record · C.Lock ok. -/
 theorem mutex_needs_timely_unlock :
     ∃ (c : Cfg) (s : St), Reach c true false s ∧ s.holds 1 = true ∧ s.holds 2 = true :=
-  sorry
+  by
+  obtain ⟨s, hr, h₁, h₂⟩ := weak_double_hold
+  exact ⟨cfgOwn, s, hr, h₁, h₂⟩
 
 /-- non-vacuity: a reachable state with a holder, a waiter parked in WaitForVersionChange on
 another Locker and a goroutine blocked on the shared Locker's token -/
 theorem nonvacuous : ∃ (c : Cfg) (s : St), Reach c false true s ∧ s.holds 0 = true ∧
     (∃ v, s.pc 1 = .lWait v) ∧ s.pc 2 = .lSelect ∧ c.lk 2 = c.lk 0 ∧ c.lk 1 ≠ c.lk 0 :=
-  sorry
+  by
+  obtain ⟨s, hr, h₀, h₁, h₂⟩ := nonvacuous_run
+  exact ⟨cfgShared, s, hr, h₀, h₁, h₂, by decide, by decide⟩
 
 end C01
